@@ -109,7 +109,9 @@ def mk_image(ctx, use_cd):
              'CRVAL1': R('crval1'), 'CRVAL2': R('crval2')}
     has1, has2 = Sym(z3.Bool('has_cdelt1')), Sym(z3.Bool('has_cdelt2'))
     maybe = {'CDELT1': (has1, R('cdelt1')), 'CDELT2': (has2, R('cdelt2')),
-             'CD1_1': (Not(has1) if use_cd else False, R('cd11')), 'CD2_2': (Not(has2) if use_cd else False, R('cd22'))}
+             'CD1_1': (Not(has1) if use_cd else False, R('cd11')), 'CD2_2': (Not(has2) if use_cd else False, R('cd22')),
+             'CD1_2': (Sym(z3.Bool('has_cd12')) if use_cd else False, R('cd12')),
+             'CD2_1': (Sym(z3.Bool('has_cd21')) if use_cd else False, R('cd21'))}
     hdr = SymDict("header", items, maybe)
     data = SArr.fresh("data", (cx, cy))
     hdu = Obj('PrimaryHDU', header=hdr, data=data)
@@ -186,6 +188,9 @@ def t_roundtrip(ctx):
                And(*[xh.present.get(key) is False for key in ('BN_CFAC', 'BN_NPX1', 'BN_NPX2', 'BN_RPX1', 'BN_RPX2')]))
     ctx.oblige("frame", "expand.other_cards_unchanged",
                And(*[xh.vals[key] is orig[key] for key in ('CRVAL1', 'CRVAL2', 'NAXIS')]))
+    ctx.oblige("post", "expand.header_inverse.cd_cross_terms",
+               And(*[And(xh.present[key] is orig_present[key] or xh.present[key] == orig_present[key],
+                         Implies(orig_present[key], xh.vals[key] == orig[key])) for key in ('CD1_2', 'CD2_1')]))
     rgi, pts = xdata.rgi
     rows, cols = rgi.grids
     ctx.oblige("post", "expand.interpolates_stored_samples", rgi.values is cdata or rgi.values.name.startswith(cdata.name))
@@ -238,8 +243,14 @@ def t_is_compressed(ctx):
                if not isinstance(r, bool) else (And(*pres.values()) if r else Not(And(*pres.values()))))
 
 
+def t_band_of_compressed(ctx):
+    """a compressed aux file is expanded transparently on load (C20's contract, compressed path)"""
+    from contracts import c20
+    c20.t_single(ctx, force_compressed=True)
+
+
 def verify(S):
-    for name, fn in (("fits_tools.compress_expand", t_roundtrip), ("fits_tools.compress", t_invalid_factor),
+    for name, fn in (("fits_tools.load_image_band", t_band_of_compressed), ("fits_tools.compress_expand", t_roundtrip), ("fits_tools.compress", t_invalid_factor),
                      ("fits_tools.expand", t_expand_uncompressed), ("fits_tools.is_compressed", t_is_compressed)):
         if S.only and S.only not in name:
             continue
@@ -273,7 +284,12 @@ for _l in ("compress.shape", "compress.node_rows", "compress.node_rows_in_image"
            "rgi.query_within_grid.axis1", "rgi.grid_length_matches_values.axis0", "rgi.grid_length_matches_values.axis1",
            "compress.invalid_factor_returns_none", "expand.uncompressed_returned_unchanged",
            "compress.none_only_without_scale_cards", "expand.other_cards_unchanged",
-           "expand.header_inverse.scale_cards_presence_unchanged", "compress.returns_same_hdulist"):
+           "expand.header_inverse.scale_cards_presence_unchanged", "compress.returns_same_hdulist",
+           "expand.header_inverse.cd_cross_terms"):
     REPLAY[_l] = "replay_roundtrip"
 
-NATIVE_CHECKS = [{"func": "crosscheck", "payload": {}}]
+for _l in ("band.header_shift.naxis2", "band.header_shift.crpix2", "band.header_is_image_header",
+           "band.data_rows.compressed_uses_expanded_data", "band.range_within_image", "band.last_ends_at_rows",
+           "band.first_starts_at_zero", "band.all_columns"):
+    REPLAY[_l] = "replay_aux"
+NATIVE_CHECKS = [{"func": "crosscheck", "payload": {}}, {"func": "crosscheck_aux", "payload": {}}]
